@@ -617,7 +617,19 @@ def slotOf (mp : Path) (i : Nat) : List Entry → Option (String × Val)
 
 def quote (s : String) : String := "\"" ++ s ++ "\""
 
-/-- JSON text of a value; object slots are read from the log; an unset slot is `"":null`.
+/-- The text of slot `i` of the map of object `p`, given how to print values; an unset slot is
+    the zero `OrderedMapItem`: `"":null`. -/
+def slotText (rv : Val → String) (log : List Entry) (p : Path) (i : Nat) : String :=
+  match slotOf p i log with
+  | some (key, v) => quote key ++ ":" ++ rv v
+  | none => quote "" ++ ":null"
+
+/-- Slots `i, i+1, …, i+k-1`. -/
+def slotTexts (rv : Val → String) (log : List Entry) (p : Path) : Nat → Nat → List String
+  | 0, _ => []
+  | k + 1, i => slotText rv log p i :: slotTexts rv log p k (i + 1)
+
+/-- JSON text of a value; object slots are read from the log.
     `fuel` bounds the nesting depth (`run` passes more than any value can have). -/
 def render : Nat → List Entry → Val → String
   | 0, _, _ => "<fuel>"
@@ -625,11 +637,7 @@ def render : Nat → List Entry → Val → String
   | _ + 1, _, .unit => "null"
   | _ + 1, _, .scalar s => s
   | f + 1, log, .list vs => "[" ++ ",".intercalate (vs.map (render f log)) ++ "]"
-  | f + 1, log, .obj p n =>
-    "{" ++ ",".intercalate ((List.range n).map fun i =>
-      match slotOf p i log with
-      | some (key, v) => quote key ++ ":" ++ render f log v
-      | none => quote "" ++ ":null") ++ "}"
+  | f + 1, log, .obj p n => "{" ++ ",".intercalate (slotTexts (render f log) log p n 0) ++ "}"
 
 def segText : Seg → String
   | .key s => quote s
